@@ -493,6 +493,7 @@ def structure_scope(res, pid, rng, tier):
         outs = out.split("\n")
         ins = text.split("\n")
         res.evaluations += len(ins)
+        res.sample({"features": cfg.describe(), "lines_in": ins[:3], "lines_out": outs[:3]}, limit=3)
         if len(outs) != len(ins):
             fails.append({"kind": "number of lines changed", "cfg": cfg.describe(), "lines_in": len(ins), "lines_out": len(outs)})
             continue
@@ -587,6 +588,8 @@ def total_scope(res, pid, rng, tier):
         c, obj = objs[i % len(objs)]
         res.evaluations += 1
         res.nt(("hostile", ln[:10]))
+        if i % 200 == 0:
+            res.sample({"features": c.describe(), "line": ln[:120]}, limit=4)
         o = io.StringIO()
         try:
             obj.anonymize_io(io.StringIO(ln + "\n"), o)
@@ -679,7 +682,9 @@ def compose_scope(res, pid, rng, tier):
                     continue
                 cur = "".join(lines)
                 res.evaluations += text.count("\n")
-                res.nt(("subset", r, undo))
+                for ln_ in text.split("\n"):
+                    res.nt(("subset", r, undo, ln_[:16]))
+                res.sample({"features": base.describe(), "first_lines": text.split("\n")[:3], "together": multi.split("\n")[:3]}, limit=3)
                 if cur != multi:
                     la, lb = multi.split("\n"), cur.split("\n")
                     k = next((i for i, (x, y) in enumerate(zip(la, lb)) if x != y), 0)
@@ -712,6 +717,9 @@ def determinism_scope(res, pid, rng, tier):
         b = anon_text(cfg, text)
         res.evaluations += 2
         res.nt(("det", r))
+        for ln_ in text.split("\n"):
+            res.nt(("detline", ln_[:16]))
+        res.sample({"features": cfg.describe(), "input_first_lines": text.split("\n")[:2], "output_first_lines": a.split("\n")[:2]}, limit=2)
         if prefixes != ["10.0.0.0/8"]:
             fails.append({"kind": "the caller's preserve_prefixes list was modified", "list_now": prefixes})
         if a != b:
